@@ -1182,3 +1182,33 @@ def case_of(b, req, meta):
     ids = sorted({i for e in sh.listing for i in foreign_ids(e["type"])})
     imports = "; ".join("import %s \"harness/%s/v1\" (package v1: type %s %s)" % (FOREIGN_ALIAS[d], d, n, gosrc(FOREIGN[d][n])) for d, n in map(foreign_parts, ids))
     return {"request": req, "shape": sexpr(sh.type), "go": "; ".join("type %s %s" % (i, gosrc(u)) for i, u in sh.decls) + ("; " + imports if imports else ""), "batch": b.idx}
+
+
+def huge_offset_probe(ctx):
+    """A focus displaced by 4 GiB and more inside its container (go/harness/hugeoffset): offsets are uintptr, an optic must
+    address exactly the field whatever the displacement.  The container is one fresh heap object (virtual address space
+    only).  Direct oracle only.  If the process cannot get the address space (resource limits), the probe is recorded as
+    not run — never an alarm."""
+    import vlib
+    binp, err = ctx.harness("hugeoffset", {"github.com/fogfish/golem/hseq": vlib.REPO + "/hseq", "github.com/fogfish/golem/optics": vlib.REPO + "/optics"})
+    if binp is None:
+        ctx.broken.append({"kind": "correspondence", "detail": "huge-offset harness does not build against hseq/optics", "log": err})
+        return
+    try:
+        rc, out, e = ctx.run_harness(binp, [], [""], timeout=120)
+    except Exception as ex:  # pragma: no cover
+        ctx.cov["huge_offset"] = "not run: %r" % (ex,)
+        return
+    if not any(l.startswith("offsets ") for l in out):
+        ctx.cov["huge_offset"] = "not run (no address space?): rc=%s %s" % (rc, (e or "")[-200:])
+        return
+    fails = [l for l in out if l.startswith("FAIL")]
+    for l in out:
+        if l.startswith("ok ") or l.startswith("FAIL"):
+            ctx.count("huge-offset|" + l.split(" ", 1)[1][:60], nontrivial=True)
+    ctx.hist("huge_offset_probes", len([l for l in out if l.startswith(("ok ", "FAIL"))]))
+    ctx.cov["huge_offset"] = out[0]
+    if fails:
+        ctx.violations.append(vlib.Violation("impl", "a lens/reflector on a field displaced by more than 4 GiB inside its container does not read/write exactly that field: " + fails[0][5:],
+                                             case="go/harness/hugeoffset: struct{ Pad [1<<32+24]byte; X int64; Inner{P [1<<31]byte; V int32; W uint64}; Y uint16 } — " + out[0],
+                                             expected="every probe ok", got=fails, key={"class": "huge-offset"}))
